@@ -21,6 +21,10 @@ fn main() {
     match cmd.as_str() {
         "core-pp" => core_pp::run(seed, cases, &mut sink),
         "core-mp" => core_mp::run(seed, cases, &mut sink),
+        "core-mp-corpus" => {
+            let file = arg(&args, "--file").unwrap_or_else(|| "harness/corpus/core-mp-verify-panics.txt".into());
+            core_mp::replay(&file, &mut sink)
+        }
         "db-scenario" => {
             let name = arg(&args, "--name").unwrap_or_default();
             db::scenario(&name, &mut sink)
